@@ -611,7 +611,8 @@ def process_config(args):
             res["shadow"] = dict(failed=None, note="shadow crashed: " + repr(e))
     # ---- dtype shadow (opt-in per check, DTYPE_SHADOW): the same harness on integer-dtype arrays
     ds = getattr(mod, "DTYPE_SHADOW", None)
-    if opts.get("shadow") and ds and ds(cfg) and not res["violations"] and not res["error"] and not res["inconclusive"] and not (res["shadow"] or {}).get("failed"):
+    want = ds(cfg) if ds else False  # True: on the shadow sample; "always": on every configuration of that kind
+    if want and (opts.get("shadow") or want == "always") and not res["violations"] and not res["error"] and not res["inconclusive"] and not (res["shadow"] or {}).get("failed"):
         try:
             failed, note = concrete_run(mod, cfg, None, int_arrays=True)
         except Exception as e:
